@@ -20,7 +20,7 @@ SYNC = {
             ('cases', 'c18_history', 4000, 200000), ('cases', 'c18_large', 60, 1500),
             ('suite',)],
     'C19': [('cases', 'c19_program', 30000, 1500000)],
-    'C20': [('cases', 'c20_tree', 12000, 400000),
+    'C20': [('cases', 'c20_tree', 12000, 400000), ('cases', 'c20_large', 40, 1000),
             ('suite',)],
 }
 
